@@ -56,7 +56,7 @@ var Profiles = map[string]Profile{
 		MultiMax: -1, Modes: []string{"convert"}},
 	"convcall": {Types: []string{"T1", "T2", "T3", "T4"}, Ifaces: []string{"I1", "I2"}, Names: []string{"", "", "a", "b"}, Subs: []string{"", "", "s"},
 		MaxIn: 2, MaxOut: 2, MaxTIn: 1, MaxInputs: 3, MaxConvs: 4, Forms: []string{"pos", "struct", "ptr", "built"}, FailProb: 0.1, OnceProb: 0.1,
-		MultiMax: -1, Modes: []string{"convcall"}},
+		MultiMax: -1, Modes: []string{"convcall"}, BadProb: 0.08},
 	"conc": {Types: []string{"T1", "T2", "T3", "T4"}, Ifaces: []string{"I1"}, Names: []string{"", "", "a", "b"}, Subs: []string{"", "s", "t"},
 		MaxIn: 2, MaxOut: 2, MaxTIn: 3, MaxInputs: 3, MaxConvs: 4, Forms: []string{"pos", "struct", "ptr"}, FailProb: 0.1, OnceProb: 0.4,
 		MultiMax: -1, Modes: []string{"call"}, TargetOuts: 1},
@@ -170,12 +170,20 @@ func (p Profile) Random(r *rand.Rand, sid int) Scenario {
 		s.Target.NilOut = false
 		if s.Mode == "convert" || s.Mode == "convcall" {
 			l := Label{Type: pick(r, append(append([]string{}, p.Types...), p.Ifaces...))}
+			if s.Mode == "convcall" && r.Intn(8) == 0 {
+				// corners of "for all target types": the error interface; two types printing the same name
+				l.Type = pick(r, []string{"E", "L1", "L2"})
+			}
 			s.Target = FuncSpec{In: []Label{l}, Out: []Label{l}, Form: "pos"}
 		}
 		ni := r.Intn(p.MaxInputs + 1)
 		keys := map[string]bool{}
+		special := map[string]string{"E": "PE", "L1": "L1", "L2": "L2"}[s.Target.In0Type()]
 		for i := 0; i < ni; i++ {
 			l := Label{Name: pick(r, p.Names), Type: pick(r, p.Types), Sub: pick(r, p.Subs)}
+			if special != "" && r.Intn(2) == 0 {
+				l.Type = special
+			}
 			if keys[inputKey(l)] && !p.DupInputs {
 				continue
 			}
